@@ -96,6 +96,82 @@ static void mode_follow() {
     }
 }
 
+// follow, dynamic RF: the kick table changes from step to step (phase modulation, phase and amplitude noise);
+// the particle moved after step k must have received the kick the charge received in step k
+static void mode_followdyn() {
+    const double bl2 = 1e-3 / physcons::c * 5e8 * 6.283185307179586;     // RF phase per unit of q (Spec: qscale 1e-3, fRF 5e8)
+    for (long c = M.from; c < M.from + M.count; c++) {
+        Rng r(M.seed, c, 1504);
+        Spec s; s.n = (uint32_t)r.range(48, M.thorough() ? 192 : 128); s.nb = 1; s.it = 2 + (int)(c % 3);
+        bool linear = (c / 3) % 2 == 0;
+        int dyn = (int)((c / 6) % 3);          // 0 phase modulation, 1 noise, 2 both
+        if (r.chance(0.5)) { s.shiftx = r.uni(-3, 3); s.shifty = r.uni(-3, 3); }
+        s.kind = linear ? K_RF_LIN : K_RF_SIN;
+        const double d = s.pqsize / (s.n - 1), amp = s.n / 8.0;
+        double K;                              // cells of kick per radian of RF phase
+        if (linear) { s.angle = (r.chance(0.5) ? 1 : -1) * r.uni(0.2, 1) * std::atan(amp / (s.n / 2.0 + 3)); K = std::fabs(std::tan(s.angle)) / (bl2 * d); }
+        else { double dE = d * s.pscale; s.V = 1e6; s.V0 = r.uni(0, 0.5) * s.V; K = r.uni(0.2, 1) * amp / (bl2 * (s.pqsize / 2 + 3 * d)); s.revpart = K * dE / s.V; }
+        const double Amax = (s.n / 16.0) / K;
+        double modampl = 0, modinc = 0, sphi = 0, sampl = 0;
+        if (dyn != 1) { modampl = r.uni(0.1, 1) * Amax; modinc = r.uni(0.02, 0.3); }
+        if (dyn != 0) { sphi = r.uni(0.05, 1) * Amax / 5; sampl = r.chance(0.5) ? r.uni(0.002, 0.02) : 0; }
+        const uint32_t nsteps = 12;
+        // the noise amplitudes are given per sqrt(revolution part)
+        const double rp = linear ? 1e-3 : s.revpart;
+        std::ostringstream ds; ds << "followdyn " << s.descr() << " K=" << K << " modampl=" << modampl << " modinc=" << modinc << " phase_sigma=" << sphi << " ampl_sigma=" << sampl;
+        M.begin_case(c, ds.str());
+        vh::set_grid(s.n, 1);
+        auto fill = filling_for(1);
+        auto in = grid_for(s, fill), out = grid_for(s, fill);
+        auto it = (SourceMap::InterpolationType)s.it;
+        std::unique_ptr<DynamicRFKickMap> map;
+        if (linear) map.reset(new DynamicRFKickMap(in, out, s.n, s.n, (meshaxis_t)s.angle, rp, s.fRF, (meshaxis_t)(sphi * std::sqrt(rp)), (meshaxis_t)(sampl * std::sqrt(rp)),
+                                                   (meshaxis_t)modampl, modinc, nsteps + 4, it, false, nullptr));
+        else map.reset(new DynamicRFKickMap(in, out, s.n, s.n, rp, s.V, s.fRF, s.V0, (meshaxis_t)(sphi * std::sqrt(rp)), (meshaxis_t)(sampl * std::sqrt(rp)),
+                                            (meshaxis_t)modampl, modinc, nsteps + 4, it, false, nullptr));
+        const size_t nn = (size_t)s.n * s.n;
+        float* din = in->getData();
+        uint32_t m = (uint32_t)std::ceil(s.n / 4.0) + 7;
+        double kick_range = 0, prev_kick = 0;
+        for (uint32_t k = 0; k < nsteps; k++) {
+            double px = r.uni(m, s.n - 1 - m), py = r.uni(m, s.n - 1 - m), sg = 1.5;
+            std::fill(din, din + nn, 0.0f);
+            for (int x = (int)px - 6; x <= (int)px + 7; x++) for (int y = (int)py - 6; y <= (int)py + 7; y++)
+                din[(size_t)x * s.n + y] = (float)std::exp(-0.5 * ((x - px) * (x - px) + (y - py) * (y - py)) / (sg * sg));
+            double s0 = 0, cx0 = 0, cy0 = 0;
+            for (uint32_t x = 0; x < s.n; x++) for (uint32_t y = 0; y < s.n; y++) { double v = din[(size_t)x * s.n + y]; s0 += v; cx0 += v * x; cy0 += v * y; }
+            cx0 /= s0; cy0 /= s0;
+            map->apply();
+            const float* dout = out->getData();
+            double s1 = 0, cx1 = 0, cy1 = 0;
+            for (uint32_t x = 0; x < s.n; x++) for (uint32_t y = 0; y < s.n; y++) { double v = dout[(size_t)x * s.n + y]; s1 += v; cx1 += v * x; cy1 += v * y; }
+            cx1 /= s1; cy1 /= s1;
+            PhaseSpace::Position p{(float)cx0, (float)cy0};
+            map->applyTo(p);
+            // curvature allowance from the table itself (tables of neighbouring steps have the same curvature scale)
+            const meshaxis_t* off = map->getForce();
+            double c2 = 0, mx = 0;
+            for (uint32_t i = 1; i + 1 < s.n; i++) c2 = std::max(c2, std::fabs((double)off[i - 1] - 2.0 * off[i] + off[i + 1]));
+            for (uint32_t i = 0; i < s.n; i++) mx = std::max(mx, std::fabs((double)off[i]));
+            if (mx > s.n / 4.0 + 1) { M.ev("followdyn_kick_beyond_margin"); break; }     // (a 5 sigma noise sample: blob may have left the interior)
+            double err = std::hypot((double)p.x - cx1, (double)p.y - cy1);
+            double moved = cy1 - cy0;
+            if (k) kick_range = std::max(kick_range, std::fabs(moved - prev_kick));
+            prev_kick = moved;
+            M.ev("particles_followed_dynamic_rf");
+            M.ev(std::string("followdyn.") + (linear ? "linear" : "sinus") + (dyn == 0 ? ".modulation" : dyn == 1 ? ".noise" : ".both"));
+            if (!M.within(std::string("followdyn_err_cells.") + (linear ? "linear" : "sinus"), std::max(0.0, err - 2.25 * c2), 1e-3)) {
+                vh::J dj; dj.s("spec", ds.str()).i("step", k).n("x0", cx0).n("y0", cy0).n("blob_x1", cx1).n("blob_y1", cy1).n("particle_x1", p.x).n("particle_y1", p.y).n("curvature_allowance", 2.25 * c2);
+                M.violation(std::string("C15:follow:dynamic_rf:") + (linear ? "linear" : "sinus"), "tracked particle does not receive the RF kick the charge around it received in the same step", dj.str());
+                break;
+            }
+        }
+        if (kick_range > 0.01) M.ev("followdyn_cases_with_kick_changing_between_steps");
+        M.sig(vh::hmix(vh::hmix(s.n * 8 + s.it, (uint64_t)linear * 4 + dyn), (uint64_t)(int64_t)(K * 1e6)));
+        { vh::J j; j.s("class", "followdyn").s("spec", ds.str()).n("step_to_step_kick_change", kick_range); M.sample(j.str()); }
+    }
+}
+
 static void mode_ingrid() {
     for (long c = M.from; c < M.from + M.count; c++) {
         Rng r(M.seed, c, 1502);
@@ -196,7 +272,7 @@ static void mode_ensemble() {
 int main(int argc, char** argv) {
     M.parse(argc, argv);
     std::string mode = M.opt("--mode", "follow");
-    if (mode == "follow") mode_follow(); else if (mode == "ingrid") mode_ingrid(); else mode_ensemble();
+    if (mode == "follow") mode_follow(); else if (mode == "followdyn") mode_followdyn(); else if (mode == "ingrid") mode_ingrid(); else mode_ensemble();
     M.finish();
     return 0;
 }
